@@ -1246,7 +1246,7 @@ pub fn run(ctx: &mut Ctx) {
             run_case(ctx, &Json::obj().set("family", "scenario").set("scenario", name));
         }
     }
-    let scale = ctx.tier_pick(6u64, 60);
+    let scale = ctx.tier_pick(6u64, 400);
     let fams: [(&str, u64); 7] = [("hll", 60), ("theta", 40), ("cpc", 25), ("bloom", 40), ("countmin", 48), ("frequent", 45), ("tdigest", 20)];
     for (fam, n) in fams {
         for i in 0..n * scale {
